@@ -269,8 +269,9 @@ pub fn gen_config(r: &mut Rng) -> ConfigSpec {
             c.max_random_float = (a + 0.001 + (r.unit() * 10.0) as f32).to_bits();
         }
         2 => {
-            c.min_random_float = (*r.pick(&[-1e30f32, -1.0, 0.0, -f32::MAX / 4.0])).to_bits();
-            c.max_random_float = (*r.pick(&[1e-3f32, 1.0, 1e30, f32::MAX / 4.0])).to_bits();
+            // min < max holds for all of these (NaN never compares less): the quantifier's whole range
+            c.min_random_float = (*r.pick(&[-1e30f32, -1.0, 0.0, -f32::MAX / 4.0, f32::MIN, f32::NEG_INFINITY, -f32::MIN_POSITIVE])).to_bits();
+            c.max_random_float = (*r.pick(&[1e-3f32, 1.0, 1e30, f32::MAX / 4.0, f32::MAX, f32::INFINITY, f32::MIN_POSITIVE])).to_bits();
         }
         _ => {
             c.min_random_float = 0f32.to_bits();
@@ -517,8 +518,13 @@ pub fn family_program(r: &mut Rng, ctx: &GenCtx) -> Vec<ISpec> {
             ])]
         }
         _ => {
-            // deep nesting
-            let d = 1 + r.below(8) as usize;
+            // deep nesting (clone / drop / size / Display recurse once per level)
+            let d = match r.below(4) {
+                0 => 1 + r.below(8) as usize,
+                1 => 8 + r.below(60) as usize,
+                2 => 60 + r.below(400) as usize,
+                _ => 400 + r.below(2000) as usize,
+            };
             let mut t = body(r);
             for _ in 0..d {
                 t = ISpec::L(vec![ctx.instr(r), t, ctx.literal(r)]);
